@@ -1,4 +1,5 @@
-import PsiProofs.Helper.C11_Concat
+import PsiProofs.Helper.C11_SplitCases
+import PsiProofs.Helper.C11_KF1
 /-!
 # C11 — annotated arrays keep time base, channel labels and metadata aligned
 
@@ -270,6 +271,112 @@ theorem concat_adjacent_1d (n1 n2 : Nat) (d1 d2 : List Nat) (s0 : Int) (fs : Rat
   rw [concat_two_1d _ _ _ _ _ _ _ _ _ _ _ _ h1 h2, if_neg]
   simp
 
+/-- `a[index]` when the result is an array: `getArr … = ok r ↔ getitem … = ok (arr r)`. -/
+theorem getArr_iff (a : PD) (index : Index) (r : PD) :
+    getArr Fixes.all a index = .ok r ↔ getitem a index = .ok (.arr r) := by
+  unfold getArr getitem
+  cases h : getitemG Fixes.all a index with
+  | error e => simp
+  | ok res => cases res <;> simp
+
+/-- **Split + concat restores the array — every axis, every dimensionality, any number of cuts.**
+For a well-formed 1-, 2- or 3-D annotated array `a`, an axis `dim` it has (time; channel for ≥ 2-D; epoch for 3-D) and any
+list of cut positions `ks ∈ ℤ*` (negative and out-of-range alike) whose clamped values are nondecreasing, the unit-step
+slices `a[:k₁], a[k₁:k₂], …, a[kₘ:]` of that axis (`cutIndex`: `x[..., s]` for time, `x[s]` / `x[:, s]` for channel,
+`x[s]` for epoch) all exist, there are `m + 1` of them, and `concat` of them along `dim` is `a` itself: shape, data
+placement, `s0`, `fs`, channel labels and metadata.  (`ks = []`: `concat([a[:]]) = a`.) -/
+theorem concat_split (a : PD) (hwf : WF a) (dim : Dim) (hk : dim.k ≤ a.ndim) (ks : List Int)
+    (hsorted : (ks.map (clampPos · (axisLen a dim))).Pairwise (· ≤ ·)) :
+    ∃ pieces, (cutSlices ks).mapM (fun s => getArr Fixes.all a (cutIndex a.ndim dim s)) = .ok pieces ∧
+      pieces.length = ks.length + 1 ∧ concat pieces dim = .ok a := by
+  suffices H : ∃ pieces, (cutSlices ks).mapM (fun s => getArr Fixes.all a (cutIndex a.ndim dim s)) = .ok pieces ∧
+      concat pieces dim = .ok a by
+    obtain ⟨pieces, h1, h2⟩ := H
+    exact ⟨pieces, h1, by rw [mapM_ok_length _ _ _ h1]; exact cutSlices_length ks none, h2⟩
+  cases hwf with
+  | d1 n data s0 fs lab m hd =>
+    cases dim with
+    | time => exact split_t1 n data s0 fs lab m hd ks hsorted
+    | channel => simp [Dim.k, PD.ndim] at hk
+    | epoch => simp [Dim.k, PD.ndim] at hk
+  | d2 c n data s0 fs l m hd hl =>
+    cases dim with
+    | time => exact split_t2 c n data s0 fs l m hd hl ks hsorted
+    | channel => exact split_c2 c n data s0 fs l m hd hl ks hsorted
+    | epoch => simp [Dim.k, PD.ndim] at hk
+  | d3 e c n data s0 fs l ms hd hl hm =>
+    cases dim with
+    | time => exact split_t3 e c n data s0 fs l ms hd hl hm ks hsorted
+    | channel => exact split_c3 e c n data s0 fs l ms hd hl hm ks hsorted
+    | epoch => exact split_e3 e c n data s0 fs l ms hd hl hm ks hsorted
+
+/-- **One cut at any `k ∈ ℤ`** (no ordering hypothesis needed): `concat([x[:k], x[k:]]) = x` on every axis of every
+well-formed 1-, 2- or 3-D array. -/
+theorem concat_split_one (a : PD) (hwf : WF a) (dim : Dim) (hk : dim.k ≤ a.ndim) (k : Int) :
+    ∃ p1 p2, getitem a (cutIndex a.ndim dim ⟨none, some k, none⟩) = .ok (.arr p1) ∧
+      getitem a (cutIndex a.ndim dim ⟨some k, none, none⟩) = .ok (.arr p2) ∧
+      concat [p1, p2] dim = .ok a := by
+  obtain ⟨pieces, h1, _, h3⟩ := concat_split a hwf dim hk [k] (by simp)
+  simp only [cutSlices, cutSlicesFrom, List.mapM_cons, List.mapM_nil] at h1
+  cases e1 : getArr Fixes.all a (cutIndex a.ndim dim ⟨none, some k, none⟩) with
+  | error e => rw [e1] at h1; cases h1
+  | ok p1 =>
+    cases e2 : getArr Fixes.all a (cutIndex a.ndim dim ⟨some k, none, none⟩) with
+    | error e => rw [e1, e2] at h1; cases h1
+    | ok p2 =>
+      rw [e1, e2] at h1
+      cases h1
+      exact ⟨p1, p2, (getArr_iff _ _ _).1 e1, (getArr_iff _ _ _).1 e2, h3⟩
+
+/-- **concat refuses non-adjacent or mismatched pieces — every dimensionality, any number of pieces.**
+For well-formed arrays of one dimensionality `≥ dim.k`: if some piece has another rate, or (time axis) some piece does
+not start at the sample after the previous piece's last (`s0ᵢ ≠ s0₀ + Σ_{j<i} n_time j`), or (not concatenating
+channels) some piece has other channel labels, or (not concatenating epochs) other metadata, `concat` raises
+`ValueError`. -/
+theorem concat_rejects (dim : Dim) (base : PD) (rest : List PD) (hwf : ∀ b ∈ base :: rest, WF b)
+    (hnd : ∀ b ∈ rest, b.ndim = base.ndim) (hk : dim.k ≤ base.ndim)
+    (hbad : (∃ b ∈ rest, b.fs ≠ base.fs) ∨
+      (dim = .time ∧ ∃ i, ∃ h : i < rest.length,
+        rest[i].s0 ≠ base.s0 + base.nTime + ((rest.take i).map fun b => (b.nTime : Int)).sum) ∨
+      (dim ≠ .channel ∧ ∃ b ∈ rest, b.channel ≠ base.channel) ∨
+      (dim ≠ .epoch ∧ ∃ b ∈ rest, b.metadata ≠ base.metadata)) :
+    concat (base :: rest) dim = .error .valueError := by
+  apply concat_not_joinable dim base rest base.ndim hwf
+    (by intro b hb; simp only [List.mem_cons] at hb; rcases hb with rfl | hb; rfl; exact hnd b hb) hk
+  rcases hbad with h | ⟨hd, i, hi, h⟩ | h | h
+  · exact .inl h
+  · refine .inr (.inl ⟨hd, ?_⟩)
+    cases hc : checkS0 (base.s0 + base.nTime) rest with
+    | false => rfl
+    | true => exact absurd ((checkS0_iff rest _).1 hc i hi) h
+  · exact .inr (.inr (.inl h))
+  · exact .inr (.inr (.inr h))
+
+/-- **Adjacent, matching pieces are joined — every dimensionality, any number of pieces.** Well-formed arrays of one
+dimensionality `≥ dim.k` with the same rate, (time axis) each starting at the sample after its predecessor's last,
+(not concatenating channels) the same labels, (not concatenating epochs) the same metadata, and the same shape off
+the concatenation axis: `concat` succeeds; the result has the first piece's `s0` and `fs`, the labels / metadata of the
+pieces in order along a concatenated channel / epoch axis (else the common ones), the axis lengths added, and the data
+of `np.concatenate` in its simplest form (`joinData`: for every outer index, the blocks of all pieces in turn). -/
+theorem concat_adjacent (dim : Dim) (base : PD) (rest : List PD) (hwf : ∀ b ∈ base :: rest, WF b)
+    (hnd : ∀ b ∈ rest, b.ndim = base.ndim) (hk : dim.k ≤ base.ndim)
+    (hfs : ∀ b ∈ rest, b.fs = base.fs)
+    (hs0 : dim = .time → ∀ (i : Nat) (h : i < rest.length),
+      rest[i].s0 = base.s0 + base.nTime + ((rest.take i).map fun b => (b.nTime : Int)).sum)
+    (hch : dim ≠ .channel → ∀ b ∈ rest, b.channel = base.channel)
+    (hmd : dim ≠ .epoch → ∀ b ∈ rest, b.metadata = base.metadata)
+    (hsh : ∀ b ∈ rest, b.shape.take (base.ndim - dim.k) = base.shape.take (base.ndim - dim.k) ∧
+      b.shape.drop (base.ndim - dim.k + 1) = base.shape.drop (base.ndim - dim.k + 1)) :
+    concat (base :: rest) dim = .ok
+      ⟨base.shape.take (base.ndim - dim.k) ++ [((base :: rest).map fun b => b.shape.getD (base.ndim - dim.k) 0).sum] ++
+          base.shape.drop (base.ndim - dim.k + 1),
+        joinData (base.ndim - dim.k) (prod (base.shape.take (base.ndim - dim.k)))
+          ((base :: rest).map fun b => (b.shape, b.data)),
+        base.s0, base.fs, joinChan dim base (base :: rest), joinMeta dim base (base :: rest)⟩ :=
+  concat_adjacent_core dim base rest hwf
+    (by intro b hb; simp only [List.mem_cons] at hb; rcases hb with rfl | hb; rfl; exact hnd b hb) hk
+    ⟨hfs, fun hd => (checkS0_iff rest _).2 (hs0 hd), hch, hmd⟩ hsh
+
 /-- **Arithmetic, copies and dtype casts keep annotations**: `__array_finalize__` on a result of the same shape
 copies `s0`, `fs`, channel and metadata unchanged (for every well-formed array). -/
 theorem finalize_keeps (a : PD) (hwf : WF a) (data' : List Nat) :
@@ -280,6 +387,97 @@ theorem finalize_keeps (a : PD) (hwf : WF a) (data' : List Nat) :
   | d1 n data s0 fs lab m hd => cases lab <;> simp [finalize]
   | d2 c n data s0 fs l m hd hl => simp [finalize]
   | d3 e c n data s0 fs l ms hd hl hm => simp [finalize]
+
+/-! ### Known finding C11-KF1: its boundary as a theorem -/
+
+/-- the oracle's "counts equal the axis lengths": a channel list has `shape[-2]` entries, a metadata list `shape[-3]`
+(`shape[-2]` on a 2-D result); lists only on ≥ 2-D results. -/
+def countsMatch (r : PD) : Prop :=
+  (∀ l, r.channel = .many l → 2 ≤ r.ndim ∧ l.length = shapeM2 r.shape) ∧
+  (∀ ms, r.metadata = .many ms → 2 ≤ r.ndim ∧ ms.length = (if 3 ≤ r.ndim then shapeM3 r.shape else shapeM2 r.shape))
+
+theorem itemSel_fancy_lt {it : Item} {n : Nat} {ps : List Nat} (h : itemSel it n = .ok (.fancy ps)) : ∀ p ∈ ps, p < n := by
+  cases it with
+  | int i => simp only [itemSel, Except.map] at h; split at h <;> cases h
+  | slice s => simp only [itemSel, Except.map] at h; split at h <;> cases h
+  | newaxis => cases h
+  | ellipsis => cases h
+  | ilist l => exact itemSel_lt (it := .ilist l) trivial h
+  | iarr l => exact itemSel_lt (it := .iarr l) trivial h
+  | blist l => exact itemSel_lt (it := .blist l) trivial h
+  | barr l => exact itemSel_lt (it := .barr l) trivial h
+
+/-- **C11-KF1 boundary, inside: at most one list/mask entry ⇒ counts always equal the axis lengths.**
+For every well-formed 3-D array and every index expression `x[eIt, cIt, ts]` with `eIt`, `cIt` an int, a slice (step ≥ 1),
+an int list or a bool list that NumPy accepts on its axis and `ts` any slice NumPy accepts on the time axis: if at most one
+of `eIt`, `cIt` is a list/mask, indexing succeeds, every entry keeps its own axis (`shape = axes(eIt) ++ axes(cIt) ++ [len]`),
+the labels / metadata are those of the selected rows, and their counts equal the lengths of these axes (`countsMatch`: the
+harness oracle's check). -/
+theorem single_advanced_counts (e c n : Nat) (data : List Nat) (s0 : Int) (fs : Rat) (l : List Label) (ms : List Md)
+    (hl : l.length = c) (hm : ms.length = e) (eIt cIt : Item) (he : eIt.simple ∧ eIt.selects)
+    (hc : cIt.simple ∧ cIt.selects) (ts : PySlice) (selE selC : Sel) (tps : List Nat)
+    (hE : itemSel eIt e = .ok selE) (hC : itemSel cIt c = .ok selC) (hT : slicePositions ts n = .ok tps)
+    (h1 : ¬ (selE.isFancy = true ∧ selC.isFancy = true)) :
+    ∃ r, getitem ⟨[e, c, n], data, s0, fs, .many l, .many ms⟩ (.tuple [eIt, cIt, .slice ts]) = .ok (.arr r) ∧
+      r.shape = selShape selE ++ selShape selC ++ [tps.length] ∧
+      r.channel = selChan l selC ∧ r.metadata = selMeta ms selE ∧
+      chanCount r.channel = (selShape selC).head? ∧ metaCount r.metadata = (selShape selE).head? ∧
+      countsMatch r := by
+  obtain ⟨sel, hnp, hsh⟩ := npOfSels_single selE selC tps (c * n) n (itemSel_ne_new he.1 hE) (itemSel_ne_new hc.1 hC) h1
+  rw [← npGetitem_ecs e c n eIt cIt he.1 hc.1 ts selE selC tps hE hC hT] at hnp
+  obtain ⟨S, F, hg⟩ := getitem_ecs e c n data s0 fs l ms hl hm eIt cIt he.1 hc.1 ts selE selC tps hE hC hT sel hnp
+  have hcl := selChan_count l selC (hl ▸ itemSel_lt hc.2 hC)
+  have hml := selMeta_count ms selE (hm ▸ itemSel_lt he.2 hE)
+  refine ⟨_, hg, hsh, rfl, rfl, hcl, hml, ?_⟩
+  simp only [countsMatch, hsh, PD.ndim]
+  have hne := itemSel_ne_new he.1 hE
+  have hnc := itemSel_ne_new hc.1 hC
+  cases selE <;> cases selC <;>
+    simp_all [selChan, selMeta, selShape, shapeM2, shapeM3, chanCount, metaCount, Sel.isFancy]
+
+
+/-- **C11-KF1 boundary, outside: two list/mask entries.** With a list/mask on the epoch AND on the channel axis, whenever
+indexing returns at all it returns an array whose two selected axes are merged into ONE axis of the broadcast length `k`
+(NumPy pairs the two lists element-wise) while `len(pc)` labels and `len(pe)` metadata entries are attached per axis;
+the counts equal the axis length **iff the two lists have the same length** — so the finding consists exactly of the
+expressions with two list/mask entries of different lengths (one of them of length 1, broadcast). -/
+theorem two_advanced_boundary (e c n : Nat) (data : List Nat) (s0 : Int) (fs : Rat) (l : List Label) (ms : List Md)
+    (hl : l.length = c) (hm : ms.length = e) (eIt cIt : Item) (he : eIt.simple) (hc : cIt.simple) (ts : PySlice)
+    (pe pc tps : List Nat) (hE : itemSel eIt e = .ok (.fancy pe)) (hC : itemSel cIt c = .ok (.fancy pc))
+    (hT : slicePositions ts n = .ok tps) (res : Res)
+    (hres : getitem ⟨[e, c, n], data, s0, fs, .many l, .many ms⟩ (.tuple [eIt, cIt, .slice ts]) = .ok res) :
+    ∃ r k, res = .arr r ∧ r.shape = [k, tps.length] ∧
+      r.channel = .many (listTake l pc) ∧ r.metadata = .many (listTake ms pe) ∧
+      (listTake l pc).length = pc.length ∧ (listTake ms pe).length = pe.length ∧
+      (countsMatch r ↔ pe.length = pc.length) := by
+  have hnpe := npGetitem_ecs e c n eIt cIt he hc ts _ _ tps hE hC hT
+  cases hnp : npGetitem [e, c, n] [eIt, cIt, .slice ts] with
+  | error err =>
+    simp [getitem, getitemG, Index.items, hnp] at hres
+  | ok sel =>
+    obtain ⟨S, F, hg⟩ := getitem_ecs e c n data s0 fs l ms hl hm eIt cIt he hc ts _ _ tps hE hC hT sel hnp
+    rw [hg] at hres
+    cases hres
+    rw [hnpe] at hnp
+    obtain ⟨k, hk, hiff⟩ := npOfSels_two pe pc tps (c * n) n sel hnp
+    have hlc : (listTake l pc).length = pc.length := listTake_length l pc (hl ▸ itemSel_fancy_lt hC)
+    have hlm : (listTake ms pe).length = pe.length := listTake_length ms pe (hm ▸ itemSel_fancy_lt hE)
+    refine ⟨_, k, rfl, hk, rfl, rfl, hlc, hlm, ?_⟩
+    rw [← hiff]
+    simp only [countsMatch, selChan, selMeta, hk, PD.ndim, shapeM2, shapeM3]
+    simp [hlc, hlm]
+    omega
+
+
+/-- **C11-KF1, the witness pinned by the repository's test** (`data3d[[0, 2], [0]]`): two list entries are paired
+element-wise — one merged axis of length 2 — while one channel label and two metadata entries are attached. -/
+theorem kf1_counterexample :
+    (getitem ⟨[3, 2, 1], [0, 1, 2, 3, 4, 5], 0, 1, .many [some "a", some "b"], .many [10, 11, 12]⟩
+        (.tuple [.ilist [0, 2], .ilist [0]])).toOption.map
+      (fun r => match r with | .arr b => (b.shape, b.channel, b.metadata) | .scalar _ => ([], .one none, .one 0)) =
+      some ([2, 1], .many [some "a"], .many [10, 12]) := by
+  decide +kernel
+
 
 /-! ### The code as found (`getitemOrig`) violates the property: counterexamples -/
 
@@ -333,5 +531,28 @@ example : itemSel (.iarr [1, 2]) 3 = .ok (.fancy [1, 2]) := rfl
 example : itemSel (.int (-1)) 3 = .ok (.idx 2) := rfl
 /-- a rejected pair: the second piece starts one sample late. -/
 example : (5 : Int) ≠ 0 + (4 : Nat) ∨ (1 : Rat) ≠ 1 ∨ (none : Label) ≠ none ∨ (0 : Md) ≠ 0 := .inl (by decide)
+
+/-- `x[[0, 2], 0, 1:]` on (3, 2, 4): one list entry — hypotheses of `single_advanced_counts`. -/
+example : (Item.ilist [0, 2]).simple ∧ (Item.ilist [0, 2]).selects ∧ (Item.int 0).simple ∧ (Item.int 0).selects ∧
+    itemSel (.ilist [0, 2]) 3 = .ok (.fancy [0, 2]) ∧ itemSel (.int 0) 2 = .ok (.idx 0) ∧
+    slicePositions ⟨some 1, none, none⟩ 4 = .ok [1, 2, 3] ∧
+    ¬ ((Sel.fancy [0, 2]).isFancy = true ∧ (Sel.idx 0).isFancy = true) :=
+  ⟨trivial, trivial, trivial, trivial, rfl, rfl, rfl, by simp [Sel.isFancy]⟩
+/-- `x[[0, 2], [0], :]`: two list entries of lengths 2 and 1 — hypotheses of `two_advanced_boundary`; lengths differ. -/
+example : itemSel (.ilist [0, 2]) 3 = .ok (.fancy [0, 2]) ∧ itemSel (.ilist [0]) 2 = .ok (.fancy [0]) ∧
+    ([0, 2] : List Nat).length ≠ ([0] : List Nat).length := ⟨rfl, rfl, by decide⟩
+/-- two 3-D pieces joined along the channel axis: hypotheses of `concat_adjacent` (shapes agree off axis 1). -/
+example : ([1, 2, 3] : List Nat).take (3 - Dim.channel.k) = ([1, 1, 3] : List Nat).take (3 - Dim.channel.k) ∧
+    ([1, 2, 3] : List Nat).drop (3 - Dim.channel.k + 1) = ([1, 1, 3] : List Nat).drop (3 - Dim.channel.k + 1) := by decide
+/-- cuts `[-1, 5]` on the channel axis (2 channels) of a 3-D array: clamped to `[1, 2]`, nondecreasing. -/
+example : Dim.channel.k ≤ PD.ndim ⟨[2, 2, 1], [0, 1, 2, 3], 5, 1728, .many [none, some "b"], .many [0, 1]⟩ ∧
+    (([-1, 5] : List Int).map (clampPos · (axisLen ⟨[2, 2, 1], [0, 1, 2, 3], 5, 1728, .many [none, some "b"], .many [0, 1]⟩
+      .channel))).Pairwise (· ≤ ·) := by decide
+example : WF ⟨[2, 2, 1], [0, 1, 2, 3], 5, 1728, .many [none, some "b"], .many [0, 1]⟩ :=
+  WF.d3 2 2 1 _ _ _ _ _ rfl rfl rfl
+/-- two 2-D pieces, the second one sample late: `concat_rejects`' hypotheses hold (`i = 0`). -/
+example : (⟨[1, 2], [2, 3], 3, 1, .many [none], .one 0⟩ : PD).s0 ≠
+    (⟨[1, 2], [0, 1], 0, 1, .many [none], .one 0⟩ : PD).s0 + (⟨[1, 2], [0, 1], 0, 1, .many [none], .one 0⟩ : PD).nTime +
+      (([] : List PD).map fun b => (b.nTime : Int)).sum := by decide
 
 end Psi.PData
